@@ -1764,11 +1764,12 @@ static int runModel(const vh::Args& args, vh::Reporter& rep, Env& env) {
                     }
                     if (!a.num) continue;
                     // 1e-12 for everything that is read and converted.  Cell volumes, thicknesses, centres and pore volumes are
-                    // *computed* from corner coordinates by differences and determinants (condition number up to ~1e4 for a
-                    // 20 m cell 800 m from the origin): 1e-9, centres relative to at least 1 m.
+                    // *computed* from corner coordinates by differences and determinants (cells of per-cell DX/DY can be slivers
+                    // of a few m^3 between coordinates of several 100 m): 1e-9 relative to at least 1 m / 1000 m^3 / 100 m^3.
                     const bool geometry = sn == "grid" || (sn == "field-properties" && a.path.compare(0, 4, "PORV") == 0);
                     const double tol = geometry ? 1e-9 : 1e-12;
-                    double e = vh::reldiff(a.v, b.v, sn == "grid" ? 1.0 : 0.0);
+                    const double floor_ = !geometry ? 0.0 : (a.path.compare(0, 6, "volume") == 0 ? 1000.0 : (a.path.compare(0, 4, "PORV") == 0 ? 100.0 : 1.0));
+                    double e = vh::reldiff(a.v, b.v, floor_);
                     // a user defined argument without Dimension in both decks: a pure number (equal) or a context dependent
                     // quantity that is converted on use - those are observed through the evaluated controls below
                     if (a.udaNoDim && b.udaNoDim && e > 1e-12) { rep.count("uda_without_dimension_not_compared"); continue; }
